@@ -21,8 +21,15 @@ MCReqs2abc == ReqsUpTo(2, {"/v/a", "/v/a/1", "/v/b"})
 MCSlots1 == {1}
 MCSlots2 == {1, 2}
 
-Cnt(F(_)) == [p \in MCP |-> F(p)]
-St == [tbl |-> tbl, K |-> K, st |-> st, aout |-> Cnt(AOut), bin |-> Cnt(BIn)]
+MCEntriesBi == {E("/v/a", "exact"), E("/v/a", "prefix"), E("/v/b", "exact")}
+MCReqs2ab == ReqsUpTo(2, {"/v/a", "/v/a/1", "/v/b"})
+MCTokens1 == {"/v/b"}
+OnlyA == {"A"}
+OnlyB == {"B"}
+Both == {"A", "B"}
+
+Cnt(F(_, _)) == [x \in {"A", "B"} |-> [p \in MCP |-> F(x, p)]]
+St == [tbl |-> tbl, K |-> K, st |-> st, out |-> Cnt(Out), inn |-> Cnt(In)]
 EmitEdge == PrintT(<<"VFEDGE", ToJson([s |-> St, op |-> op', t |-> St'])>>)
 MCInit == Init /\ PrintT(<<"VFINIT", ToJson(St)>>)
 =============================================================================
